@@ -99,6 +99,16 @@ def _install_models():
             if name == 'discard':
                 return Builtin('discard', lambda e: ix.set_row(key, z3.Store(ix.row(key), to_z3(e), False)))
             raise Unsupported(f'CopySet.{name} on the index model')
+        if isinstance(obj, SSet) and getattr(obj, 'as_list', False) and name in ('append', 'remove'):
+            # vmf.entities is a list; only membership matters here: append = add, remove = discard or ValueError
+            def append(e):
+                obj.expr = z3.Store(obj.expr, to_z3(e), True)
+
+            def remove(e):
+                if not I.path.branch(z3.Select(obj.expr, to_z3(e)), f'list.remove.present@{lineno}'):
+                    I.raise_('ValueError', 'list.remove(x): x not in list', lineno=lineno)
+                obj.expr = z3.Store(obj.expr, to_z3(e), False)
+            return Builtin(name, append if name == 'append' else remove)
         return orig_bound(I, obj, name, lineno)
 
     def truth(self, v):
@@ -142,6 +152,7 @@ def _world(h, ent_in_map, is_spawn=False):
     ent = Obj('Entity', dict(_keys=keys, id=1), module=M)
     ent.oid = x_ref
     ents = SSet(z3.Array('entities', ENT, z3.BoolSort()))
+    ents.as_list = True
     spawn = ent if is_spawn else Obj('Entity', dict(_keys=PDict({'classname': 'worldspawn'}), id=2), module=M)
     vmf = Obj('VMF', dict(by_class=by_class.obj, by_target=by_target.obj, entities=ents, spawn=spawn,
                           node_id=Obj('IDMan', {'_used': h.int_set('nodes'), 'search_pos': 1}, module=M)), module=M)
@@ -155,6 +166,21 @@ def _world(h, ent_in_map, is_spawn=False):
         h.assume(fold_fn()(z3.StringVal(lit)) == z3.StringVal(lit.casefold()))
     # invariant I before, with x's current values
     h.assume(_inv(by_class, by_target, ents.expr, x_ref, cls0, tgt0, live=bool(ent_in_map) or is_spawn))
+    # a candidate witness for the reachability covers (satisfiability under the quantified invariant is out of the
+    # solvers' reach without one): fold = identity, every other entity an unnamed info_null outside the map, x the only
+    # member (if it is one), the indexes exactly what I says for that world
+    live = bool(ent_in_map) or is_spawn
+    e, ks = z3.Int('hint!e'), z3.String('hint!s')
+    empty = z3.K(ENT, z3.BoolVal(False))
+    only_x = z3.Store(empty, x_ref, z3.BoolVal(live))
+    h.cover_hint(z3.ForAll([ks], fold_fn()(ks) == ks))
+    h.cover_hint(z3.ForAll([e], z3.And(CLS(e) == z3.StringVal('info_null'), TGT(e) == z3.StringVal(''))))
+    h.cover_hint(ents.expr == z3.Store(empty, x_ref, z3.BoolVal(bool(ent_in_map))))
+    h.cover_hint(cls0 == z3.StringVal('worldspawn' if is_spawn else 'info_null'))
+    h.cover_hint(tgt0 == z3.StringVal(''))
+    h.cover_hint(by_class.arr == z3.Store(z3.K(z3.StringSort(), empty), cls0, only_x))
+    h.cover_hint(by_target.arr == z3.K(z3.StringSort(), empty))
+    h.cover_hint(by_target.none == only_x)
     return dict(vmf=vmf, ent=ent, by_class=by_class, by_target=by_target, ents=ents, x=x_ref, cls0=cls0, tgt0=tgt0)
 
 
@@ -242,14 +268,44 @@ del_tgt_in = _delitem_lemma('Entity.__delitem__[targetname, entity in map]', 'ta
 del_tgt_out = _delitem_lemma('Entity.__delitem__[targetname, entity not in map]', 'targetname', False)
 del_tgt_case = _delitem_lemma('Entity.__delitem__[TargetName spelling, entity in map]', 'TargetName', True)
 
+
+def _vmf_lemma(name, method, in_map_before, live_after):
+    c = REG.add(Contract(f'{M}:VMF.{method}', PROP, name=name, modular=False,
+                         inline=('_remove_copyset', 'Entity.__getitem__', 'Entity.__contains__', 'Entity.get')))
+
+    def setup(h):
+        w = _world(h, in_map_before)
+        return {'args': [w['vmf'], w['ent']], 'ghost': dict(w_by_class=w['by_class'], w_by_target=w['by_target'],
+                                                            w_ents=w['ents'], x=w['x'], ENT=w['ent'], LIVE=live_after)}
+    c.setup(setup)
+
+    def index_invariant_holds_afterwards(ENT, w_by_class, w_by_target, w_ents, x, LIVE):
+        return invariant(w_by_class, w_by_target, w_ents, x, key_value(ENT, 'classname'), key_value(ENT, 'targetname'), LIVE)
+    c.ensures(index_invariant_holds_afterwards)
+
+    def entity_list_membership_is_as_requested(w_ents, x, LIVE):
+        return is_member(w_ents, x) == LIVE
+    c.ensures(entity_list_membership_is_as_requested)
+    return c
+
+
+@native
+def is_member(I, ents, x):
+    return z3.Select(ents.expr, x)
+
+
+rem_in = _vmf_lemma('VMF.remove_ent[entity in map]', 'remove_ent', True, False)
+rem_out = _vmf_lemma('VMF.remove_ent[entity already removed]', 'remove_ent', False, False)
+add_out = _vmf_lemma('VMF.add_ent[entity not in map]', 'add_ent', False, True)
+
 for _c in list(REG.by_name.values()):
     _c.feas_timeout_ms = 300      # quantified path conditions: an undecided feasibility query keeps the path
 PROOFS = [set_cls_in, set_cls_out, set_tgt_in, set_tgt_out, set_cls_key_case, set_tgt_key_case, set_spawn,
-          del_tgt_in, del_tgt_out, del_tgt_case]
+          del_tgt_in, del_tgt_out, del_tgt_case, rem_in, rem_out, add_out]
 
 
 # ------------------------------------------------------------------------------------------------ bounded histories
-VALS = ['', 'a', 'A', 'b', 'Door1']
+VALS = ['', 'a', 'A', 'b', 'Door1', 'Stra\xdfe']      # the last one: casefold() != lower()
 
 
 def _scan(vmf):
@@ -277,7 +333,7 @@ def _check(vmf, step):
         return f'after {step}: by_class keys/sizes {_sizes(got_c)} but the entities give {_sizes(want_c)}'
     if got_t != want_t:
         return f'after {step}: by_target keys/sizes {_sizes(got_t)} but the entities give {_sizes(want_t)}'
-    for name in ('a', 'A', 'b', 'door1', 'worldspawn', 'info_null', 'x', 'y'):
+    for name in ('a', 'A', 'b', 'door1', 'worldspawn', 'info_null', 'x', 'y', 'strasse', 'STRA\xdfE'):
         got = sorted(id(e) for e in vmf.search(name))
         want = sorted(set(want_t.get(name.casefold(), set())) | set(want_c.get(name.casefold(), set())))
         if sorted(set(got)) != want:
@@ -389,7 +445,7 @@ def _parse_case(text):
 
 
 @bounded('C07.B-histories', bound='22 operations (create/add/add_ents from a generator/remove/re-add, set/del/pop '
-         'classname and targetname with values "", a, A, b, Door1 and mixed-case key spellings, clear, update, '
+         'classname and targetname with values "", a, A, b, Door1, Stra\xdfe (casefold differs from lower) and mixed-case key spellings, clear, update, '
          'setdefault, make_unique, copy within and across maps, worldspawn edits, iteration while mutating): all '
          'histories create + one operation x value, all create + two operations on a value sample, seeded histories of '
          'length <= 6; parsed documents', rule='one case per history; non-trivial when an indexed key changes')
@@ -397,7 +453,7 @@ def b_histories(ctx):
     jobs = []
     for op in OPS:
         for v in VALS:
-            for v0 in ('a', 'A', ''):
+            for v0 in ('a', 'A', '', 'Stra\xdfe'):
                 jobs.append((('create', v0), (op, v)))
     for a, b in itertools.product(OPS, repeat=2):
         for v in (VALS if ctx.thorough else ['A', '']):
@@ -445,6 +501,15 @@ for _c in PROOFS:
     _c.replay_fn = _witness
 
 MUTATIONS = [
+    dict(name='remove_ent_lower_instead_of_casefold', file='vmf.py',
+         old="        _remove_copyset(self.by_target, item['targetname'].casefold() or None, item)\n",
+         new="        _remove_copyset(self.by_target, item['targetname'].lower() or None, item)\n", expect='history='),
+    dict(name='remove_ent_forgets_the_class_index', file='vmf.py',
+         old="        _remove_copyset(self.by_class, item['classname'].casefold(), item)\n        _remove_copyset(self.by_target",
+         new="        _remove_copyset(self.by_target", expect='VMF.remove_ent'),
+    dict(name='add_ent_indexes_target_without_none', file='vmf.py',
+         old="        self.by_target[item['targetname', ''].casefold() or None].add(item)\n        if 'nodeid' in item:",
+         new="        self.by_target[item['targetname', ''].casefold()].add(item)\n        if 'nodeid' in item:", expect='VMF.add_ent'),
     dict(name='setitem_unfolded_removal', file='vmf.py',
          old="            _remove_copyset(self.map.by_class, (orig_val or '').casefold(), self)",
          new="            _remove_copyset(self.map.by_class, orig_val or '', self)", expect='Entity.__setitem__'),
